@@ -84,7 +84,7 @@ CONTRACTS = WC.owned(PROP) + [
                   "reflected or cross-phase-replayed body fails authentication unless it was sealed for exactly that label"),
     Contract("wormhole/_mailbox.py:Mailbox.rx_message", props=[PROP],
              params={"side": "str", "phase": "str", "body": "bytes"},
-             self_fields={"_side": "str", "_O": "obj[IOrder]", "_processed": "set[str]"},
+             self_fields={"_side": "str", "_O": "obj[IOrder]", "_processed": "set[str]", "_pending_outbound": "dict[str,bytes]"},
              replay={"driver": "trace_replay:run", "collaborators": {"_O": "IOrder"}},
              ensures=[("own-side-is-an-echo",
                        "implies(side == self._side, input_calls('rx_message_ours') == 1 and "
